@@ -30,7 +30,7 @@ def scroll_speed(m: Map, override_bpm: float = None) -> pd.Series:
             ignore_index=True,
         )
         # Sort by Offset (due to head and tail out of order)
-        .sort_values("offset")
+        .sort_values("offset", kind="stable")
         # Assume Head Tail same bpm as nearest
         .ffill()
         .bfill()
@@ -69,7 +69,7 @@ def scroll_speed(m: Map, override_bpm: float = None) -> pd.Series:
                 how="outer",
             )
             # Make sure to sort offset before filling
-            .sort_values("offset")
+            .sort_values("offset", kind="stable")
             # Fill in gaps made by OUTER JOIN
             .ffill().bfill()
         )
